@@ -73,6 +73,16 @@ TAIL_SMC = """Definition gen_smc_tail (t : atype) (amean ua : Q) : Q * Q :=
   let margin := gen_smc_margin amean in                                                   (* self.margin = 2 * amean - 1 *)
   (margin, match t with Polling => gen_smc_u_polling ua | _ => gen_smc_u_comparison margin ua end).
 """
+# Assertion.set_all_margins_from_cvrs: for every assertion, set_margin_from_cvrs unconditionally, then test.u again
+TAIL_SAM = """Definition gen_sam_tail (asns : list asn) (cvr_list : list card) (stratum_style : bool) : list asn * Xq :=
+  let step (a : asn) :=
+    let mu := set_margin_from_cvrs (a_A a) (a_cid a) (a_type a) (a_ua a) cvr_list stratum_style in   (* asn.set_margin_from_cvrs(audit, cvr_list) *)
+    let margin := fst mu in                                                                          (* margin = asn.margin *)
+    mkasn (a_A a) (a_cid a) (a_style a) (a_type a) (a_thr a) margin (a_ua a) (a_means a)
+          (test_u_for (a_type a) margin (a_ua a)) in                                                 (* asn.test.u = u *)
+  let asns' := map step asns in
+  (asns', fold_left (fun m a => xmin_py m (a_margin a)) asns' PInf).                                 (* min_margin = min(min_margin, margin) *)
+"""
 HEADERS = {"audit_skeletons": "From SV Require Import Compare.\n"}     # names a group's generated definitions need
 
 TARGETS = {
@@ -287,6 +297,22 @@ TARGETS = {
                        ("text", "raise NotImplementedError(f'audit type {self.contest.audit_type} not supported')"),
                        ("endif",), ("endif",)],
              tail=TAIL_SMC),
+        dict(name="sam", kind="skeleton", file="shangrla/core/Audit.py", func="Assertion.set_all_margins_from_cvrs",
+             skeleton=[("text", "min_margin = np.inf"), ("for", "(c, con) in contests.items()"),
+                       ("text", "con.margins = {}"), ("for", "(a, asn) in con.assertions.items()"),
+                       ("text", "asn.set_margin_from_cvrs(audit, cvr_list)"),        # unconditional, for every assertion
+                       ("text", "margin = asn.margin"), ("text", "con.margins.update({a: margin})"),
+                       ("if", "con.audit_type == Audit.AUDIT_TYPE.POLLING"),
+                       ("expr", "u", "u_polling", ["ua"], {"asn.assorter.upper_bound": "ua"}),
+                       ("else",),
+                       ("if", "con.audit_type in [Audit.AUDIT_TYPE.CARD_COMPARISON, Audit.AUDIT_TYPE.ONEAUDIT]"),
+                       ("expr", "u", "u_comparison", ["margin", "ua"], {"asn.assorter.upper_bound": "ua"}),
+                       ("else",),
+                       ("text", "raise NotImplementedError(f'audit type {con.audit_type} not implemented')"),
+                       ("endif",), ("endif",),
+                       ("text", "asn.test.u = u"), ("text", "min_margin = min(min_margin, margin)"),
+                       ("endfor",), ("endfor",), ("text", "return min_margin")],
+             tail=TAIL_SAM),
     ],
     "raire": [
         dict(name="bp_estimate", file="shangrla/raire/sample_estimator.py", func="bp_estimate",
